@@ -74,7 +74,24 @@ fn with_main(mut m: Module, cards: Vec<Card>) -> Module {
 
 fn limit_case(rng: &mut Prng) -> (Module, &'static str) {
     let mut m = Module::default();
-    match rng.below(9) {
+    match rng.below(10) {
+        9 => {
+            // a closure that captures the locals of *two* enclosing functions: more captured variables than one
+            // function can have locals (the upvalue list has its own limit)
+            let n1 = rng.range(100, 250);
+            let n2 = rng.range(100, 250);
+            let mut cards: Vec<Card> = (0..n1).map(|i| set(format!("a{i}"), int(i))).collect();
+            let mut mid: Vec<Card> = vec![set("_", nil())];
+            mid.extend((0..n2).map(|i| set(format!("b{i}"), int(i))));
+            let mut inner: Vec<Card> = vec![set("_", nil())];
+            inner.extend((0..n1).map(|i| discard(read(format!("a{i}")))));
+            inner.extend((0..n2).map(|i| discard(read(format!("b{i}")))));
+            mid.push(set("c", closure(&[], inner)));
+            mid.push(discard(dyncall(read("c"), vec![])));
+            cards.push(set("m", closure(&[], mid)));
+            cards.push(discard(dyncall(read("m"), vec![])));
+            (with_main(m, cards), "many-upvalues-nested")
+        }
         0 => {
             // many distinct locals in one function (limit 255)
             let n = rng.range(250, 260);
@@ -157,6 +174,10 @@ fn limit_case(rng: &mut Prng) -> (Module, &'static str) {
 }
 
 fn hostile_program(rng: &mut Prng) -> (Module, &'static str) {
+    if rng.chance(1, 8) {
+        // loops that never end by themselves, through every route the interpreter can be re-entered by
+        return crate::e_budget::nonterminating(rng);
+    }
     match rng.below(12) {
         0 => {
             // self-referencing table, compared / hashed / used as key / printed
@@ -282,6 +303,13 @@ impl Engine for TotalEngine {
     fn name(&self) -> &'static str {
         "total"
     }
+    fn describe(&self, case: &Self::Case) -> serde_json::Value {
+        let mut v = serde_json::to_value(case).unwrap_or(serde_json::Value::Null);
+        if let Some(o) = v.as_object_mut() {
+            o.insert("module".into(), serde_json::Value::String(crate::pp::module(&case.module, "")));
+        }
+        v
+    }
     fn gen(&mut self, rng: &mut Prng, _tier: Tier) -> Case {
         let pick = rng.below(10);
         let (module, kind): (Module, String) = match pick {
@@ -367,7 +395,21 @@ impl Engine for TotalEngine {
             stack_size: Some((case.value_stack.max(1), case.call_stack.max(1))),
         };
         let mut vm = new_vm(&cfg, &[]);
+        // "nor loops without consuming budget": the work of one run is bounded by its budget
+        let over = std::rc::Rc::new(std::cell::Cell::new(0u64));
+        let (o2, budget) = (over.clone(), case.budget);
+        vm.runtime_data.verif.on_dispatch = Some(Box::new(move |rt, _| {
+            if rt.verif.dispatched > budget && o2.get() == 0 {
+                o2.set(rt.verif.dispatched);
+                crate::runner::note(&format!("EVIDENCE overbudget dispatched={} budget={}", rt.verif.dispatched, budget));
+                rt.verif.abort_requested.set(true);
+            }
+        }));
         let r = vm.run(&program);
+        vm.runtime_data.verif.on_dispatch = None;
+        if over.get() > 0 {
+            return Verdict::violation("C04:work-not-bounded-by-budget", format!("budget {}: the interpreter dispatched {} instructions and had not stopped", case.budget, over.get()));
+        }
         match &r {
             Ok(()) => obs.inc("run:Ok"),
             Err(e) => obs.inc(&format!("run:Err:{}", err_kind(&e.payload).split('[').next().unwrap_or("?"))),
